@@ -93,6 +93,42 @@ def _class_state_written(ss, ff) -> bool:
     return True
 
 
+def _written_class_attrs(ss) -> set[tuple[str, str]]:
+    """(Class, attr) pairs assigned somewhere in the package outside the class body (`Class.attr = …`, `cls.attr = …`)"""
+    def build():
+        out = set()
+        cg = callgraph(ss)
+        for ff in cg.funcs.values():
+            for n in pf.walk_no_nested(ff.node):
+                ts = n.targets if isinstance(n, ast.Assign) else [n.target] if isinstance(n, (ast.AugAssign, ast.AnnAssign)) else []
+                for t in ts:
+                    while isinstance(t, ast.Subscript):
+                        t = t.value
+                    if isinstance(t, ast.Attribute) and isinstance(t.value, ast.Name):
+                        if t.value.id == "cls" and ff.cls:
+                            out.add((ff.cls, t.attr))
+                        elif t.value.id[:1].isupper():
+                            out.add((t.value.id, t.attr))
+        return out
+    return ss.memo(("written_class_attrs",), build)
+
+
+def _state_dependency(ss, ff) -> str | None:
+    """a class attribute that memoised `ff` (or something it calls) READS although it is reassigned elsewhere: not in the key"""
+    cg = callgraph(ss)
+    written = _written_class_attrs(ss)
+    for k in sorted(cg.reach([ff.key])):
+        g = cg.funcs.get(k)
+        if g is None:
+            continue
+        for n in pf.walk_no_nested(g.node):
+            if isinstance(n, ast.Attribute) and isinstance(n.ctx, ast.Load) and isinstance(n.value, ast.Name):
+                owner = g.cls if n.value.id == "cls" else n.value.id
+                if owner and (owner, n.attr) in written:
+                    return f"{owner}.{n.attr} (read in {g.qualname})"
+    return None
+
+
 def memo_discipline(ctx, ss, rule: str, entries: list[str], what: str):
     """No function on the call-graph paths from `entries` ('module:qualname' keys) is memoised on a key that does not
     determine its answer."""
@@ -110,6 +146,10 @@ def memo_discipline(ctx, ss, rule: str, entries: list[str], what: str):
         why = _key_problem(ss, ff)
         if why:
             bad.append((ff, why))
+            continue
+        dep = _state_dependency(ss, ff)
+        if dep:
+            bad.append((ff, f"its arguments only, but its answer also depends on {dep}, which is reassigned at run time"))
     kk = f"{rule}:memo :: {'+'.join(e.split(':')[-1] for e in entries)[:80]}"
     if bad:
         ff, why = bad[0]
@@ -130,3 +170,42 @@ def no_shared_state(ctx, ss, rule: str, entries: list[tuple[str, str]]):
     for mod, q in entries:
         ff, _ = fn(ss, mod, q)
         no_state_effects(ctx, ss, rule, ff, shared_only=True)
+
+
+READ_PATH = [("dec/dec.py", "DecFileParser.__init__"), ("dec/dec.py", "DecFileParser.from_string"), ("dec/dec.py", "DecFileParser.parse")]
+
+
+def reading_path(ctx, ss, rule: str, queries: list[str], what: str):
+    """The path text -> parsed tables -> answer of `queries` (qualnames in dec/dec.py) remembers nothing under a key that
+    does not determine the answer: no memoisation on parsers / trees / paths / containers, and the constructor, from_string
+    and parse() write no module or class state shared between parser instances."""
+    entries = [f"{m}:{q}" for m, q in READ_PATH] + [f"dec/dec.py:{q}" for q in queries]
+    memo_discipline(ctx, ss, rule, entries, what)
+    no_shared_state(ctx, ss, rule, READ_PATH)
+
+
+# entry points per property for the memoisation discipline (the public functions the property observes)
+ENTRIES = {
+    "C03": ["dec/dec.py:DecFileParser.parse", "dec/dec.py:DecFileParser._add_charge_conjugate_decays", "dec/dec.py:find_charge_conjugate_match"],
+    "C08": ["dec/dec.py:DecFileParser.parse", "dec/dec.py:DecFileParser.build_decay_chains", "dec/dec.py:DecFileParser.expand_decay_modes", "dec/dec.py:DecFileParser.print_decay_modes",
+            "dec/dec.py:DecFileParser.list_decay_modes", "dec/dec.py:DecFileParser.dict_definitions", "dec/dec.py:DecFileParser.dict_aliases"],
+    "C11": ["decay/decay.py:DecayMode.from_dict", "decay/decay.py:DecayMode.to_dict", "decay/decay.py:DecayMode.from_pdgids", "decay/decay.py:DecayChain.from_dict",
+            "decay/decay.py:DecayChain.to_dict", "decay/decay.py:DaughtersDict.to_string", "decay/decay.py:DaughtersDict.to_list"],
+    "C12": ["decay/decay.py:DecayChain.flatten", "decay/decay.py:DecayChain.visible_bf", "decay/decay.py:DecayChain.bf", "decay/decay.py:DecayChain.top_level_decay"],
+    "C13": ["decay/decay.py:DecayChain.to_string", "decay/decay.py:DaughtersDict.to_string", "decay/decay.py:_expand_decay_modes",
+            "utils/utilities.py:DescriptorFormat.format_descriptor"],
+    "C14": ["decay/decay.py:DecayChain.to_string", "decay/decay.py:_expand_decay_modes", "dec/dec.py:DecFileParser.expand_decay_modes",
+            "utils/utilities.py:DescriptorFormat.format_descriptor", "utils/utilities.py:DescriptorFormat.set_config"],
+    "C15": ["decay/viewer.py:DecayChainViewer.__init__", "decay/viewer.py:DecayChainViewer._build_decay_graph", "decay/viewer.py:DecayChainViewer.to_string"],
+    "C17": ["modeling/amplitudechain.py:AmplitudeChain.read_ampgen", "modeling/amplitudechain.py:AmplitudeChain.from_matched_line", "modeling/amplitudechain.py:AmplitudeChain.expand_lines"],
+    "C18": ["modeling/decay.py:ModelDecay.list_structure", "modeling/goofit.py:GooFitChain.to_goofit", "modeling/goofit.py:GooFitPyChain.to_goofit",
+            "modeling/goofit.py:GooFitChain.make_intro", "modeling/goofit.py:GooFitPyChain.make_intro"],
+    "C20": ["modeling/ampgen2goofit.py:ampgen2goofit", "modeling/ampgen2goofit.py:ampgen2goofitpy", "modeling/goofit.py:GooFitChain.read_ampgen", "modeling/goofit.py:GooFitPyChain.read_ampgen"],
+}
+
+
+def memo_for(ctx, ss, prop: str, rule: str, what: str):
+    cg = callgraph(ss)
+    present = [e for e in ENTRIES[prop] if e in cg.funcs]
+    ctx.floor(rule, f"{prop} entry points found for the memoisation discipline", len(present), max(1, len(ENTRIES[prop]) - 2))
+    memo_discipline(ctx, ss, rule, present, what)
